@@ -198,6 +198,5 @@ def cases(tier):
         cs.append(dict(name="ref->lib[%s]" % k, fn=h_ref_to_lib, args=(k, lmax)))
         for how in ("flip", "truncate", "wrong-key", "wrong-kind") + tuple("flip-tag%d" % k for k in range(10)):
             cs.append(dict(name="tamper[%s,%s]" % (how, k), fn=h_tamper, args=(k, how, lmax), keep_samples=12))
-        if tier != "quick":
-            cs.append(dict(name="sweep[%s]" % k, fn=h_concrete_lengths, args=(k,)))
+        cs.append(dict(name="sweep[%s]" % k, fn=h_concrete_lengths, args=(k,)))
     return cs
